@@ -130,6 +130,10 @@ func H_C05_rank(v *V) {
 		v.Assume(false) // an empty text is not a key:value entry
 	}
 	I, E1, E2, N1, N2, C1, C2 := c05Tok(v), c05EnvTok(v), c05EnvTok(v), c05Tok(v), c05Tok(v), c05Tok(v), c05Tok(v)
+	if hasIni && kind != 2 && v.Choice(2) == 1 {
+		// an INI entry with an empty value is a value (the empty string) too
+		N1 = ""
+	}
 	o := &c05Decl{}
 	var initV []string
 	switch kind {
